@@ -224,7 +224,10 @@ def _is_guard(s: ast.stmt, vpk_test, read_member: str) -> bool:
 
 def _is_pure(s: ast.stmt) -> bool:
     """A statement that cannot change the archive or the file system: only calls of PURE_CALLS, no stores except to plain locals."""
+    exc_calls = {id(n.exc) for n in ast.walk(s) if isinstance(n, ast.Raise) and isinstance(n.exc, ast.Call) and isinstance(n.exc.func, ast.Name)}
     for n in ast.walk(s):
+        if id(n) in exc_calls:
+            continue        # constructing the exception that is raised
         if isinstance(n, ast.Call) and not (isinstance(n.func, ast.Name) and n.func.id in PURE_CALLS):
             return False
         if isinstance(n, (ast.Attribute, ast.Subscript)) and isinstance(getattr(n, 'ctx', None), (ast.Store, ast.Del)):
@@ -412,16 +415,17 @@ def _fold(e, env: dict):
         a = _fold(e.args[0], env)
         if a is not None and a[1] == '':
             return ('c', True)       # every string starts with ''
-    if isinstance(e, ast.BoolOp):       # left to right with short circuit: `'' and <anything>` is false
+    if isinstance(e, ast.BoolOp):       # Python's value semantics, left to right with short circuit: `'' and <anything>` is '', `'' or None` is None
+        v = None
         for x in e.values:
             v = _fold(x, env)
             if v is None:
                 return None
             if isinstance(e.op, ast.And) and not v[1]:
-                return ('c', False)
+                return v
             if isinstance(e.op, ast.Or) and v[1]:
-                return ('c', True)
-        return ('c', isinstance(e.op, ast.And))
+                return v
+        return v
     return None
 
 
@@ -449,7 +453,7 @@ def _specialise(stmts: list[ast.stmt], env: dict) -> list[ast.stmt]:
     return out
 
 
-def _defaults(fn: ast.FunctionDef) -> dict:
+def _defaults(fn: ast.FunctionDef, partial: bool = False) -> dict:
     env = {}
     pos = fn.args.posonlyargs + fn.args.args
     for a, d in zip(pos[len(pos) - len(fn.args.defaults):], fn.args.defaults):
@@ -460,7 +464,7 @@ def _defaults(fn: ast.FunctionDef) -> dict:
         if d is None or not isinstance(d, ast.Constant):
             raise TranslateError(f'{fn.name}: default of {a.arg} is not a constant')
         env[a.arg] = d.value
-    if len(pos) - len(fn.args.defaults) != 1:
+    if len(pos) - len(fn.args.defaults) != 1 and not partial:
         raise TranslateError(f'{fn.name}: cannot be called without arguments')
     return env
 
@@ -513,11 +517,78 @@ def _desugar_sum(body: list[ast.stmt]) -> list[ast.stmt]:
     return body[:-1] + [init] + inner + [ast.Return(value=ast.Name(id=cnt, ctx=ast.Load()), lineno=v.lineno, col_offset=0)]
 
 
-def walk_shape(fn: ast.FunctionDef, cls: ast.ClassDef) -> str:
+def _delegate(e, cls: ast.ClassDef, env: dict, depth: int) -> str | None:
+    """`self` (-> __iter__) or `self.<method>(<arguments that fold>)`: the walk of that method under those arguments; None = not a delegation"""
+    if depth > 3:
+        raise TranslateError('listing methods delegate to each other too deeply')
+    if is_self(e):
+        return walk_shape(find_def(cls.body, ast.FunctionDef, '__iter__'), cls, depth=depth + 1)
+    if isinstance(e, ast.Call) and is_name(e.func, 'iter') and len(e.args) == 1 and is_self(e.args[0]):
+        return walk_shape(find_def(cls.body, ast.FunctionDef, '__iter__'), cls, depth=depth + 1)
+    if isinstance(e, ast.Call) and isinstance(e.func, ast.Attribute) and is_self(e.func.value):
+        try:
+            m = find_def(cls.body, ast.FunctionDef, e.func.attr)
+        except TranslateError:
+            return None
+        if any(isinstance(d, ast.Name) and d.id == 'property' for d in m.decorator_list):
+            return None
+        menv = _defaults(m, partial=True)
+        params = [a.arg for a in m.args.posonlyargs + m.args.args][1:]
+        actual = list(zip(params, e.args)) + [(k.arg, k.value) for k in e.keywords]
+        if len(e.args) > len(params) or any(k is None for k, _ in actual):
+            return None
+        for nm, a in actual:
+            v = _fold(a, env)
+            if v is None or nm not in params + [a.arg for a in m.args.kwonlyargs]:
+                return None
+            menv[nm] = v[1]
+        if any(q not in menv for q in params):
+            return None
+        try:
+            return walk_shape(m, cls, env=menv, depth=depth + 1)
+        except TranslateError:
+            return None         # not a listing method (e.g. a helper that returns the dicts of one level): handled by the general path
+    return None
+
+
+def _delegated_shape(body: list[ast.stmt], cls: ast.ClassDef, env: dict, depth: int) -> str | None:
+    """A listing method written in terms of another one: `for x in D: yield x[.filename]`, `yield from D`, `return len(list(D))`,
+    `n = 0; for _ in D: n += 1; return n` (what `sum(1 for _ in D)` desugars to)."""
+    if len(body) == 1 and isinstance(body[0], ast.Expr) and isinstance(body[0].value, ast.YieldFrom):
+        return _delegate(body[0].value.value, cls, env, depth)
+    if len(body) == 1 and isinstance(body[0], ast.For) and isinstance(body[0].target, ast.Name) and len(body[0].body) == 1:
+        d = _delegate(body[0].iter, cls, env, depth)
+        y = body[0].body[0]
+        if d == 'infos' and isinstance(y, ast.Expr) and isinstance(y.value, ast.Yield) and y.value.value is not None:
+            v = y.value.value
+            if is_name(v, body[0].target.id):
+                return 'infos'
+            if isinstance(v, ast.Attribute) and v.attr in ('filename', 'name') and is_name(v.value, body[0].target.id):
+                return 'names'
+        return None
+    if len(body) == 1 and isinstance(body[0], ast.Return) and isinstance(body[0].value, ast.Call) and is_name(body[0].value.func, 'len') \
+            and len(body[0].value.args) == 1:
+        a = body[0].value.args[0]
+        if isinstance(a, ast.Call) and isinstance(a.func, ast.Name) and a.func.id in ('list', 'tuple') and len(a.args) == 1:
+            return 'count' if _delegate(a.args[0], cls, env, depth) == 'infos' else None
+    if len(body) == 3 and isinstance(body[0], ast.Assign) and isinstance(body[1], ast.For) and isinstance(body[2], ast.Return) \
+            and len(body[0].targets) == 1 and isinstance(body[0].targets[0], ast.Name) and isinstance(body[0].value, ast.Constant) and body[0].value.value == 0:
+        c = body[0].targets[0].id
+        f = body[1]
+        if is_name(body[2].value, c) and len(f.body) == 1 and isinstance(f.body[0], ast.AugAssign) and isinstance(f.body[0].op, ast.Add) \
+                and is_name(f.body[0].target, c) and isinstance(f.body[0].value, ast.Constant) and f.body[0].value.value == 1 and type(f.body[0].value.value) is int:
+            return 'count' if _delegate(f.iter, cls, env, depth) == 'infos' else None
+    return None
+
+
+def walk_shape(fn: ast.FunctionDef, cls: ast.ClassDef, env: dict | None = None, depth: int = 0) -> str:
     """'infos' = yields every FileInfo of the nest once; 'names' = yields `.filename` of every one; 'count' = returns their number."""
-    env = _defaults(fn)
+    env = _defaults(fn) if env is None else env
     body = _specialise(fn_body(fn), env)
     body = _desugar_sum(body)
+    d = _delegated_shape(body, cls, env, depth)
+    if d is not None:
+        return d
     kind_of: dict[str, int] = {}
     # locals bound to a level-0 iterable (e.g. all_folders = self._fileinfo.values())
     iter_alias: dict[str, tuple[int, str]] = {}
